@@ -77,6 +77,21 @@ def run(ctx):
     for n in range(16 if quick else 60):
         datasets.append(('cf2d_holes', gen.cf2d(rng, ny=rng.randint(2, 3), nx=rng.randint(2, 4), bounds=False,
                                                 holes=rng.choice(['edge', 'random', 'corner']), shoc_simple=(n % 2 == 0), invalid=False)))
+    # cells that spell a shared corner differently: 0.0 in one cell's bounds, -0.0 in its neighbour's (mirrored hemispheres,
+    # rounded bounds); the two are the same point and must be one vertex
+    for flip in ([0] if quick else [0, 1, 2]):
+        hi = numpy.array([[0.0, 1.0], [1.0, 2.5]])
+        lo = -hi[::-1, ::-1]                                  # [[-2.5, -1.0], [-1.0, -0.0]]
+        edges = numpy.concatenate([lo, hi])
+        centres = edges.mean(axis=1)
+        if flip == 1:
+            edges = edges[::-1, ::-1].copy()
+            centres = centres[::-1].copy()
+        zds = xarray.Dataset(
+            {'lat_bnds': (('lat', 'bnds'), edges), 'lon_bnds': (('lon', 'bnds'), edges if flip != 2 else hi)},
+            coords={'lat': ('lat', centres, {'units': 'degrees_north', 'bounds': 'lat_bnds'}),
+                    'lon': ('lon', centres if flip != 2 else hi.mean(axis=1), {'units': 'degrees_east', 'bounds': 'lon_bnds'})})
+        datasets.append(('signed_zero', gen.DS('cf1d', zds, {'label': f'cf1d mirrored bounds with 0.0 / -0.0 ({flip})'})))
     exprs, plans = [], []
     for kind, d in datasets:
         label = d.spec['label']
